@@ -55,8 +55,8 @@ def assign_kinds(deps, variant):
             if not ds:
                 kinds[n] = leaf_cycle[li % 4]
                 li += 1
-            elif len(ds) == 1 and n % 4 == 0:
-                kinds[n] = "typedef"
+            elif len(ds) == 1 and n % 2 == 0:
+                kinds[n] = "typedef"       # isar places typedefs first: they pull their target forward
             else:
                 kinds[n] = "union" if n % 2 else "struct"
         return kinds
@@ -152,6 +152,9 @@ def isar_elements(deps, kinds):
             for d in ds:
                 if kinds[d] == "constant":
                     members.append('<member name="arr%d" type="u16"><dimension size="%s"/></member>' % (d, nm(d)))
+                elif kinds[d] == "enum" and (n + d) % 2:
+                    # an array sized by the enum's first enumerator (dependency through the size expression only)
+                    members.append('<member name="arr%d" type="u16"><dimension size="%s_A"/></member>' % (d, nm(d)))
                 else:
                     members.append('<member name="m%d" type="%s"/>' % (d, nm(d)))
             out[n] = '<struct name="%s">%s</struct>' % (nm(n), "".join(members))
@@ -189,6 +192,8 @@ def schema_env_for_graph(deps, kinds):
             for d in ds:
                 if kinds[d] == "constant":
                     ms.append(S.Mem("fixed", S.Int(2), consts[d]))
+                elif kinds[d] == "enum" and (n + d) % 2:
+                    ms.append(S.Mem("fixed", S.Int(2), consts.get(d, d)))
                 else:
                     ms.append(S.Mem("plain", S.Ref(idx[d])))
             defs.append(S.StructDef(ms))
